@@ -218,6 +218,21 @@ func init() {
 					}
 				}
 			}
+			// write, remove, write again (and the like): every history of two lines over a small set,
+			// for the programs that delete or expire what they wrote
+			for _, p := range c05Programs {
+				if !strings.Contains(p, "del ") {
+					continue
+				}
+				small := []string{"foo", "bar", "del foo", "exp foo", "del bar"}
+				for _, h1 := range small {
+					for _, h2 := range small {
+						for _, pr := range small[:3] {
+							g.emit("hist", "-", hx(p), hxs([]string{h1, h2}), hx(pr))
+						}
+					}
+				}
+			}
 			n := 300
 			if g.thorough() {
 				n = 5000
